@@ -21,18 +21,6 @@ vars == <<l, bad, stats>>
 
 Persist(st) == st
 
-\* specifications are deterministic: no guarded branch whose pattern can yield several candidates
-RECURSIVE MultiCapable(_)
-MultiCapable(p) ==
-  CASE p = NoPat -> FALSE
-    [] IsVarP(p) -> FALSE
-    [] Tag(p) = "pobj" -> TRUE
-    [] Tag(p) \in {"obj", "badobj"} -> \E k \in DOMAIN p[2] : MultiCapable(p[2][k])
-    [] IsArr(p) -> (\E i \in DOMAIN p[2] : IsVarP(p[2][i])) \/ (\E i \in DOMAIN p[2] : MultiCapable(p[2][i]))
-    [] OTHER -> FALSE
-DetSpec(spec) == \A n \in DOMAIN spec.nodes : \A i \in DOMAIN spec.nodes[n].branches :
-                   ~MultiCapable(spec.nodes[n].branches[i].pat)
-
 NormStep(s) == [state |-> NormSt(s.state), emitted |-> s.emitted, stopped |-> s.stopped]
 PersistUnobservable(c) ==
   /\ c.errA = c.errB
